@@ -3,7 +3,7 @@ import json
 import common as C
 import scen
 
-PERIODS = [1000, 2000, 5000, 10000, 50000, 100000, 250000, 1000000, 3000000]
+PERIODS = [1000, 2000, 5000, 10000, 50000, 100000, 250000, 1000000, 3000000, 1500, 1001000, 1003000, 2002000]      # (the last four: no whole number of milliseconds, or one whose product with 1000 falls just below it in binary)
 
 
 def gen(rng, small=False):
